@@ -222,6 +222,15 @@ struct EncWorld : World {
 					fail("py-frame-zero", "python %s frame of %zu bytes has %zu zero bytes", ref::framing_name(framing), pf.size(), z);
 				check_roundtrip(framing, msgx, pf, dmis, "python-client", log);
 			}
+			// command text with a zero byte in it is not admitted by the framing: a frame made of it would hold two delimiters
+			if (framing == ref::COMMAND && !msgx.empty()) {
+				Bytes bad = msgx; bad[bad.size() / 2] = 0; Bytes pf2; bool ok2 = false;
+				if (py.encode(framing, bad, pf2, ok2) && ok2) {
+					size_t z = 0; for (uint8_t b : pf2) if (!b) ++z;
+					fail("py-frame-zero", "python client framed a command text with a zero byte in it: the frame of %zu bytes has %zu zero bytes", pf2.size(), z);
+				}
+				st.hit("probe:py_text_with_zero_refused");
+			}
 		}
 		if (ledger_live()) fail("leak", "%zu block(s) still allocated after the run: %s", ledger_live(), ledger_describe().c_str());
 	}
